@@ -283,6 +283,41 @@ def float_companion(rep, prop, tier, seed):
     rep.notes['float_scenarios'] = n
 
 
+def cyclic_flows(rep):
+    """C05 quantifies over flows that are DAGs; a flow with a cycle has no order
+    in which 'a step runs only after all steps it depends on', and an unknown
+    dependency names no step: the engine must refuse both at construction."""
+    from vivarium.core.engine import Engine
+    from vv.probes import ProbeStep
+    bad = {
+        'self-loop': {'s1': [('s1',)], 's2': []},
+        'two-cycle': {'s1': [('s2',)], 's2': [('s1',)]},
+        'three-cycle': {'s1': [('s3',)], 's2': [('s1',)], 's3': [('s2',)]},
+        'cycle behind a root': {'s1': [], 's2': [('s1',), ('s3',)], 's3': [('s2',)]},
+        'unknown dependency': {'s1': [('zz',)], 's2': []},
+        'unknown nested dependency': {'g': {'s3': [('zz',)]}, 's1': []},
+    }
+    for name, flow in bad.items():
+        rep.evaluations += 1
+        steps, topo = {}, {}
+        for sid, deps in flow.items():
+            if isinstance(deps, dict):
+                steps[sid] = {k: ProbeStep({'pid': k, 'vars': [k], 'silent': True}) for k in deps}
+                topo[sid] = {k: {'v': ('..', 'v')} for k in deps}
+            else:
+                steps[sid] = ProbeStep({'pid': sid, 'vars': [sid], 'silent': True})
+                topo[sid] = {'v': ('v',)}
+        try:
+            Engine(steps=steps, flow=flow, topology=topo, display_info=False,
+                   emitter={'type': 'null'})
+        except Exception:
+            rep.nontrivial.add('flow-' + name)
+            continue
+        rep.violation({'kind': 'bad-flow', 'flow': name},
+                      'C05 the engine accepted a flow that admits no dependency order (%s): %r'
+                      % (name, flow), {'flow': {k: str(v) for k, v in flow.items()}})
+
+
 def interesting(prop, recs):
     polls = [r for r in recs if r['ev'] == 'poll']
     if prop == 'C01':
@@ -441,6 +476,8 @@ def check(prop, tier, seed):
                 'every acyclic flow over 3%s steps x every ordering of up to '
                 '2 legacy derivers' % (' and 4' if tier == 'thorough' else ''))
         validate(rep, prop, scs, scratch)
+        if prop == 'C05':
+            cyclic_flows(rep)
         if prop == 'C05':
             # steps created, moved and deleted at run time (also by a step, during the
             # phase): what every step saw of its upstream step, per tick
